@@ -23,8 +23,17 @@ if [ "$2" = "replay" ] && [ -n "$3" ] && ! head -c1 "$3" | grep -q '{' && echo "
   if [ $frc -ne 0 ]; then echo "VIOLATION property=$1 replay=$3"; echo "$out" | grep -m3 -E "panicked|AddressSanitizer|assertion" | cut -c1-400; exit 1; fi
   echo "[$1] artifact replays clean"; exit 0
 fi
-"$CARGO_TARGET_DIR/verif/check" "$@"
-rc=$?
+# the output is also kept: if the process dies after it has reported a violation (a faulty engine can exhaust
+# memory while a failing case is being shrunk) the report stands
+mkdir -p "$CARGO_TARGET_DIR/run-logs"
+log="$CARGO_TARGET_DIR/run-logs/$1-$2-$$.log"
+"$CARGO_TARGET_DIR/verif/check" "$@" | tee "$log"
+rc=${PIPESTATUS[0]}
+if [ $rc -ne 0 ] && [ $rc -ne 1 ] && grep -q "^VIOLATION property=$1 " "$log"; then
+  echo "check exited with $rc after reporting a violation" >&2
+  rc=1
+fi
+rm -f "$log"
 if [ $rc -eq 0 ] && [ "$2" = "thorough" ]; then
   if [ "$1" = "C20" ]; then tools/fuzz_tier.sh C20 fuzz_grammar 25000 1500; rc=$?; fi
   if [ "$1" = "C16" ]; then tools/fuzz_tier.sh C16 fuzz_toktrie 400000 600; rc=$?; fi
